@@ -523,12 +523,14 @@ impl PageCache {
     }
 
     pub fn clear(&self) {
-        let page_count = self.len();
         #[cfg(kahflane_turdb_verif)]
         crate::verif_hooks::sched_point(502);
 
+        // count what is actually removed, under each shard's write lock
+        let mut page_count = 0;
         for shard in &self.shards {
             let mut guard = shard.write();
+            page_count += guard.entries.len();
             guard.entries.clear();
             guard.index.clear();
             guard.hand = 0;
